@@ -419,3 +419,6 @@ COMPONENTS = {
              "netCDF4 + HDF5 C libraries", "real files in a per-run scratch directory"],
     "stub": [],
 }
+
+
+STATE_MEASURE = {'C18': 'abstract state = (rank, mask kinds of the grids written together, set of DataType values read); schedule key = read parameter combinations'}
